@@ -37,6 +37,13 @@ CHECKS.update({
             "Trusted: TLC, harness projection. Domain: PREFER_DATES_FROM default. 'States all parts' is demanded of the absolute parser on unambiguous spellings only; custom-format/timestamp parsers: relational clauses only.",
             "DESIGN.md 4 C10"),
 })
+CHECKS.update({
+    "C04": ("model_checking",
+            "TLA+ machine of the relative parser with dateutil.relativedelta semantics (Freshness.tla) model-checked with TLC against the oracle Rel(b, kw, dir) (single-clamp month arithmetic, then the sub-month part); real English phrases validated by TLC trace spec T_C04.tla, implicit-now form by a bracket oracle",
+            "TLC enumerates bases (month ends, leap days, 1st/15th, three clock times) x 8 units x counts (0..5000 grid) x directions x preferences, 2- and 3-unit sums, decimals for sub-day units, time overrides, and checks machine = oracle, truthful period and None outside 0001..9999 in every state; real phrases (several spellings per unit, fixed words, clock-time overrides, bare forms under each preference) with RELATIVE_BASE are judged by TLC against the oracle and the machine; the implicit-now form is run for TIMEZONE/TO_TIMEZONE pairs and bracketed by the clock.",
+            "Trusted: TLC, CPython datetime, the UTC clock read around each implicit-now call; zones without DST only for the implicit-now form. Bare phrases whose value is out of range are outside the domain (they fall through to the absolute parser).",
+            "DESIGN.md 4 C04"),
+})
 NOT_YET = {}
 
 def main():
